@@ -3,6 +3,7 @@
 From Coq Require Import String.
 From Coq Require Import List.
 From BFG Require Import Base.Chars Find.Glob Find.GlobProofs Find.Filter Find.FilterProofs Find.Walk Find.WalkProofs.
+From BFG Require Import Find.Bases Find.BasesProofs.
 Local Open Scope N_scope.
 
 (* one component: the executable matcher used for every glob component and every NameGlob decides
@@ -145,7 +146,69 @@ Theorem C11_cache : forall fixed f f' starts starts' dist dist' st,
 Proof. exact cache_second_lookup. Qed.
 Print Assumptions C11_cache.
 
+(* the walk roots: when the start directories form an antichain for the below-relation (no start directory
+   lies in the tree of another one, none is listed twice - what path.uniquetrees is meant to deliver for the
+   include bases; that property of uniquetrees is an explicit hypothesis here, it belongs to the path algebra)
+   and every directory listing has pairwise distinct names, then no entry is reported twice: not among the
+   start directories, not within one walk, not across walks.  Entries are compared by (root, components),
+   which is finer than Path equality.  Holds for every pruning policy and every filter function. *)
+Theorem C11_walk_roots_no_duplicates : forall prune m (starts : list start),
+  antichain (map fst starts) -> Forall wf_start starts ->
+  NoDup (map (fun e => pkey_of (fst e)) (find_files prune m starts)).
+Proof. exact walk_roots_no_duplicates. Qed.
+Print Assumptions C11_walk_roots_no_duplicates.
+
+(* ... in particular find_files never returns an entry twice; with the start directories looked up in one
+   well-formed file system *)
+Theorem C11_found_no_duplicates : forall f fs (bs : list path),
+  antichain bs -> wf_fsys fs ->
+  NoDup (found_of (find_files (prune_real f) (fmatch f) (map (start_of fs) bs))).
+Proof. intros f fs bs Ha Hw. exact (proj2 (roots_no_duplicates_fs (prune_real f) (fmatch f) fs bs Ha Hw)). Qed.
+Print Assumptions C11_found_no_duplicates.
+
+(* the hypothesis is needed: with a start directory nested in another one the nested entries are found twice *)
+Definition ex_nested : ffilter :=
+  match mk_filter [mkpath 1 [STR "src"; STR "*.c"] false; mkpath 1 [STR "src"; STR "sub"; STR "*.c"] false]
+                  None [] [] None with
+  | Some f => f
+  | None => mkfilter [] [] [] None
+  end.
+Theorem C11_nested_roots_duplicate_refuted : exists f fs (bs : list path),
+  wf_fsys fs /\ ~ NoDup (found_of (find_files (prune_real f) (fmatch f) (map (start_of fs) bs))).
+Proof.
+  exists ex_nested,
+         [(1, [Dir (STR "src") false [File (STR "a.c") false; Dir (STR "sub") false [File (STR "b.c") false]]])],
+         [mkpath 1 [STR "src"] true; mkpath 1 [STR "src"; STR "sub"] true].
+  split.
+  - repeat constructor; cbn; intuition discriminate.
+  - vm_compute. intros H. inversion H as [|? ? _ H']. inversion H' as [|? ? Hx _]. apply Hx. left. reflexivity.
+Qed.
+Print Assumptions C11_nested_roots_duplicate_refuted.
+
 (* ---- non-vacuity *)
+(* the roots the model of FileFilter.bases() (Path constructor + path.uniquetrees of the path-algebra model)
+   chooses for a near-prefix family: src, src/sub and the sibling src-gen, whose name continues src with a
+   character sorting before the separator *)
+Definition ex_family : ffilter :=
+  match mk_filter [mkpath 1 [STR "src"; STR "*.c"] false; mkpath 1 [STR "src"; STR "sub"; STR "*.c"] false;
+                   mkpath 1 [STR "src-gen"; STR "*.c"] false] None [] [] None with
+  | Some f => f
+  | None => mkfilter [] [] [] None
+  end.
+Definition ex_family_fs : fsys :=
+  [(1, [Dir (STR "src") false [File (STR "main.c") false; Dir (STR "sub") false [File (STR "one.c") false]];
+        Dir (STR "src-gen") false [File (STR "two.c") false]])].
+Example ex_family_bases : bases ex_family = Some [mkpath 1 [STR "src"] true; mkpath 1 [STR "src-gen"] true].
+Proof. vm_compute. reflexivity. Qed.
+Example ex_family_antichain : antichain [mkpath 1 [STR "src"] true; mkpath 1 [STR "src-gen"] true].
+Proof. repeat constructor; intros [_ [e E]]; cbn in E; inversion E. Qed.
+Example ex_family_found :
+  option_map found_of (find_files_of (prune_real ex_family) ex_family ex_family_fs) =
+  Some [mkpath 1 [STR "src"; STR "main.c"] false; mkpath 1 [STR "src"; STR "sub"; STR "one.c"] false;
+        mkpath 1 [STR "src-gen"; STR "two.c"] false].
+Proof. vm_compute. reflexivity. Qed.
+Example ex_family_wf : wf_fsys ex_family_fs.
+Proof. repeat constructor; cbn; intuition discriminate. Qed.
 Example ex_walk :
   found_of (find_files (prune_real ex_filter) (fmatch ex_filter) ex_starts) = [mkpath 1 [STR "src"; STR "a.c"] false] /\
   extra_of (find_files (prune_real ex_filter) (fmatch ex_filter) ex_starts) = [mkpath 1 [STR "src"; STR "a.h"] false] /\
